@@ -209,12 +209,18 @@ def make_pair(r, lay, whitelist, kind, rid, case_id, hdr_kind='illumina', index_
     return {'id': rid, 'kind': kind, 'reads': reads, 'planted': planted, 'hdr': hdr_kind, 'index': index_seq}
 
 
-def write_fastq(paths, pairs, gz=True):
-    ops = [(gzip.open(p, 'wt') if gz else open(p, 'w')) for p in paths]
+def write_fastq(paths, pairs, gz=True, final_newline=True):
+    """final_newline=False: the last line of every file is not newline-terminated (files cut by `head -c`, written by other tools)"""
+    ops = [(gzip.open(p, 'wt') if (gz and p.endswith('.gz')) or (gz and not p.endswith('.fastq')) else open(p, 'w')) for p in paths]
+    texts = [[] for _ in paths]
     for pr in pairs:
-        for f, rd in zip(ops, pr['reads']):
-            f.write('\n'.join(rd) + '\n')
-    for f in ops:
+        for t, rd in zip(texts, pr['reads']):
+            t.append('\n'.join(rd) + '\n')
+    for f, t in zip(ops, texts):
+        data = ''.join(t)
+        if not final_newline and data.endswith('\n'):
+            data = data[:-1]
+        f.write(data)
         f.close()
 
 
